@@ -89,10 +89,12 @@ _FLAG_RE = re.compile(rb'\\?[^\x00-\x20\x7f(){%*"\\\]]+\Z|\\\*\Z')
 class _P:
     """Cursor over the buffer."""
 
-    def __init__(self, buf, pos: int) -> None:
+    def __init__(self, buf, pos: int, utf8_quoted: bool = False) -> None:
         self.buf = buf
         self.pos = pos
         self.n = len(buf)
+        # ManageSieve (RFC 5804) has UTF-8 in quoted strings, IMAP has not
+        self.utf8_quoted = utf8_quoted
 
     def peek(self) -> int:
         if self.pos >= self.n:
@@ -158,7 +160,8 @@ class _P:
                     raise WireError('quoted', 'bad escape \\%c' % d,
                                     self.pos - 1)
                 out.append(d)
-            elif c in (0x0d, 0x0a, 0x00) or c >= 0x80:
+            elif c in (0x0d, 0x0a, 0x00) or \
+                    (c >= 0x80 and not self.utf8_quoted):
                 # QUOTED-CHAR is a TEXT-CHAR, CHAR is %x01-7F (UTF8=ACCEPT
                 # is not advertised)
                 raise WireError('quoted', 'byte 0x%02x inside quoted string'
